@@ -184,7 +184,7 @@ def main(argv=None):
         per_key[v['key']] = n + 1
         if n >= 3:
             continue
-        d = os.path.join(ROOT, 'replays', prop)
+        d = os.path.join(ROOT, '.scratch-replays' if args.no_evidence else 'replays', prop)
         os.makedirs(d, exist_ok=True)
         safe = ''.join(ch if ch.isalnum() or ch in '-_.' else '_' for ch in v['key'])[:100]
         path = os.path.join(d, f'{safe}-{args.seed}-{n}.json')
